@@ -44,7 +44,7 @@ def run(ctx):
         comp = "pipeline" if r.get("pipeline") else r["comp"]
         sig = "%s|%s" % (comp, clause)
         if clause.startswith("pipeline-"):
-            sig = "pipeline|%s|%s" % (clause, r["detail"][:60].split(" cannot")[0] if "cannot handle" in r["detail"] else r["site"])
+            sig = "pipeline|%s|%s" % (clause, r["detail"][:60].split(" cannot")[0])
         ctx.violation(sig, "C09 %s: %s %s" % (r["comp"], clause, r["detail"][:100]),
                       {"compiler": r["comp"], "clause": clause, "declared": r.get("declared"), "qkind": r.get("qkind"), "pkind": r.get("pkind"),
                        "detail": r["detail"], "problem": r["P"]})
